@@ -281,32 +281,37 @@ func checkStrings(c *libCtx) {
 func checkBuf(c *libCtx, r *rng, n int) {
 	parts := []string{"", "a", "hello", "\n", "日本", "%d", "world ", "\x00", "{}"}
 	for i := 0; i < n; i++ {
-		b1, b2 := buf.New(), buf.New()
-		w1, w2 := "", ""
-		k := r.intn(12)
+		// a history over several live buffers: New at any time (also after a String), Write to any
+		// buffer, String of any buffer at any time (reading neither consumes nor releases it)
+		bufs := []buf.Buffer{buf.New()}
+		want := []string{""}
+		k := r.intn(16)
 		key := ""
 		p := call(func() {
 			for j := 0; j < k; j++ {
-				s := parts[r.intn(len(parts))]
-				key += s + "|"
-				if r.intn(3) == 0 {
-					buf.Write(b2, s)
-					w2 += s
-				} else {
-					buf.Write(b1, s)
-					w1 += s
-				}
-				if r.intn(4) == 0 { // reading must not consume
-					if g := buf.String(b1); g != w1 {
-						libViol("buf", "String is not the concatenation of the writes so far", key, g, w1)
+				switch op := r.intn(6); {
+				case op == 0 && len(bufs) < 6:
+					bufs = append(bufs, buf.New())
+					want = append(want, "")
+					key += "New|"
+				case op <= 3:
+					bi := r.intn(len(bufs))
+					s := parts[r.intn(len(parts))]
+					key += fmt.Sprintf("W%d:%s|", bi, s)
+					buf.Write(bufs[bi], s)
+					want[bi] += s
+				default:
+					bi := r.intn(len(bufs))
+					key += fmt.Sprintf("S%d|", bi)
+					if g := buf.String(bufs[bi]); g != want[bi] {
+						libViol("buf", "String is not the concatenation of the writes so far to that buffer", key, g, want[bi])
 					}
 				}
 			}
-			if g := buf.String(b1); g != w1 {
-				libViol("buf", "String is not the concatenation of the writes in order", key, g, w1)
-			}
-			if g := buf.String(b2); g != w2 {
-				libViol("buf", "two buffers interfere", key, g, w2)
+			for bi := range bufs {
+				if g := buf.String(bufs[bi]); g != want[bi] {
+					libViol("buf", "String is not the concatenation of the writes in order (several live buffers)", key, g, want[bi])
+				}
 			}
 		})
 		if p != nil {
